@@ -229,6 +229,11 @@ LINE_SWEEP = [
                                     "m.mp.pp.isr_matrix_block(1,ph,ph,ia,jb)"]),
 ]
 
+SPELLING = ["isr.mp.pp.overlap_precursor(1,ph,ph,ia,jb)", "isr.mp.pp.s_root(1,ph,ph,ia,jb)",
+            "isr.mp.ip.overlap_isr(1,h,h,i,j)", "m.mp.pp.isr_matrix_block(1,ph,ph,ia,jb)",
+            "m.mp.ea.mvp_block_order(1,p,p,p,a)", "m.mp.pp.precursor_matrix_block(1,ph,ph,ia,jb)",
+            "isr.mp.ea.overlap_precursor(2,p,p,a,b)", "m.mp.ip.isr_matrix_block(2,h,h,i,j)"]
+
 TWINS = [
     ("gs.mp.expectation_value(2,1)", "gs.mp.expectation_value(1,2)"),
     ("gs.mps.expectation_value(2,1)", "gs.mps.expectation_value(1,2)"),
@@ -343,6 +348,16 @@ def run(tier, seed):
     # argument-permuted twins in every combination of call forms: the same request
     # written positionally / with keywords in any order is the same request, and a request
     # whose argument values are a permutation of another's is a different one
+    # the same request spelled with tuples instead of comma separated strings, before and
+    # after the string spelling, on shared objects
+    for tid in SPELLING:
+        if tid not in ref:
+            continue
+        for order in ((5, 0), (0, 5), (5, 5)):
+            steps = [{"op": "req", "t": tid, "form": f} for f in order]
+            jobs.append({"kind": "c19", "seed": seed, "run": f"spelling-{tid}-{order}",
+                         "env": pool[0], "params": DEFAULT_PARAMS, "steps": steps,
+                         "ref": ref_for(ref, steps), "timeout": 900})
     for a, b in TWINS:
         if a not in ref or b not in ref:
             continue
